@@ -4,6 +4,10 @@ import json
 props=[json.loads(l) for l in open('properties.jsonl')]
 TRUST="Trusted base: the Go type checker/SSA builder of x/tools v0.29.0; the std functions on the allow-lists behave as documented; exported operations receive values produced by the repo's constructors."
 claimed={
+'C02':dict(technique="static analysis: abstract tabulation of each matching predicate over (operator, sign of Compare); table/regexp prefix-safety; parse-side operator domains vs match-side cases",
+ text="The operator semantics of all 20 ecosystems are decided exactly: the matching predicate is tabulated by the abstract evaluator over the operator strings it tests and the sign of Compare(probe, bound) and compared with the fixed operator table, orientation included; operator tables and ordered regexp alternations are prefix-safe; every operator the parser can store (computed from its construction sites) has a case. This covers every bound/probe pair at once because the predicate touches them only through Compare.",
+ note=TRUST+" Not decided: tokenisation of exotic bounds, deferred bound validation (npm, golang, gem, alpine, pypi re-parse the bound in matches), AND/OR quantifier shape (planned R-QUANT), pre-operator routing (npm/composer 'x').",
+ design="DESIGN.md 5 (C02)"),
 'C01':dict(technique="static analysis: finite-domain abstract evaluation of each Compare's decision table (order-type abstraction), value-set analysis, structural sibling rule",
  text="Reflexivity, antisymmetry, transitivity and result range are decided exhaustively on the finite order-type abstraction of every ecosystem's Compare (abstract interpretation of the SSA: operands touched only through comparisons, constant tables and pure derived values; zip loops summarised through a position-wise total-preorder check; callee comparators proven separately). Laws hold for all inputs whose behaviour the abstraction covers; scanner stages (debian/rpm/alpm strings, alpine numeric arrays) are outside the fragment and the chains above them are conditional. Genuine defects found are fixed in /repo or listed in known_findings.json.",
  note=TRUST+" Assumes C19 (pure helpers). Not decided: order laws inside the character scanners; spurious abstract worlds are excluded only by construction-site value domains (regexp alternations, normaliser images).",
